@@ -103,6 +103,13 @@ fn visit<'a>(
             }
             Ok(())
         }
-        Type::Name(ident) => visit_name(types, visited, ident.name),
+        Type::Name(ident) => {
+            // A type argument is stored inline as well (`A?`, `G[A]`), so a
+            // cycle through an argument is a cycle too.
+            for arg in &ident.arguments {
+                visit(types, visited, arg)?;
+            }
+            visit_name(types, visited, ident.name)
+        }
     }
 }
